@@ -537,6 +537,54 @@ theorem resize_same_size (s : Scr) (hg : Geo s) : s.resize s.w s.h = s := by
   simp only [hgrid, hbot, hcx, hcy, hsx, hsy, if_true]
   simp [hl, Nat.min_eq_left htb]
 
+/-- growing a row and cutting it back gives the row back -/
+theorem fitRow_grow_shrink (r : Row) (w : Nat) (st : Style) (hw : r.length ≤ w) :
+    fitRow (fitRow r w st) r.length st = r := by
+  by_cases he : r.length = w
+  · rw [fitRow_self st he]; exact fitRow_self st rfl
+  · have h1 : fitRow r w st = r ++ List.replicate (w - r.length) (blank st) := by
+      unfold fitRow; rw [if_neg (by omega)]
+    rw [h1]
+    have hc : contAt (r ++ List.replicate (w - r.length) (blank st)) r.length = false := by
+      apply contAt_blank (st := st)
+      rw [List.getElem?_append, if_neg (by omega), List.getElem?_replicate, if_pos (by omega)]
+    unfold fitRow
+    rw [if_pos (by simp)]
+    simp only [hc]
+    exact List.take_left' rfl
+
+/-- Growing the screen and shrinking it back to the old size restores the old state exactly:
+    nothing is lost or invented by `Resize`. -/
+theorem resize_grow_shrink (s : Scr) (hg : Geo s) (w h : Nat) (hw : s.w ≤ w) (hh : s.h ≤ h) :
+    (s.resize w h).resize s.w s.h = s := by
+  obtain ⟨w1, h1, hl, hr, hcx, hcy, hsx, hsy, htb, hb⟩ := hg
+  have e1 : s.grid.take h = s.grid := List.take_of_length_le (by omega)
+  have hgrid : (List.map (fun r => fitRow r s.w s.sty)
+      (List.take s.h (List.map (fun r => fitRow r w s.sty) s.grid ++
+        List.replicate (h - (List.map (fun r => fitRow r w s.sty) s.grid).length)
+          (blankRow w s.sty)))) = s.grid := by
+    rw [List.take_left' (by simp [hl]), List.map_map]
+    conv => rhs; rw [← List.map_id s.grid]
+    apply List.map_congr_left
+    intro r hr'
+    have := fitRow_grow_shrink r w s.sty (by rw [hr r hr']; exact hw)
+    rw [hr r hr'] at this
+    simpa using this
+  have hbot : clampNat ((s.h : Int) - ((h : Int) -
+      (clampNat ((h : Int) - ((s.h : Int) - (s.bot : Int))) (h - 1) : Nat))) (s.h - 1) = s.bot := by
+    unfold clampNat; omega
+  have hcx' : s.cx < w := by omega
+  have hcy' : s.cy < h := by omega
+  have hsx' : s.sx < w := by omega
+  have hsy' : s.sy < h := by omega
+  have htop : min (min s.top (clampNat ((h : Int) - ((s.h : Int) - (s.bot : Int))) (h - 1)))
+      s.bot = s.top := by
+    unfold clampNat; omega
+  cases s
+  simp only [Scr.resize] at *
+  simp only [e1, hgrid, hbot, htop, hcx, hcy, hsx, hsy, hcx', hcy', hsx', hsy', if_true]
+  simp [hl]
+
 /-- Resizing twice to the same size is the same as resizing once (for every old state). -/
 theorem resize_idem (s : Scr) (w h : Nat) (hw : 1 ≤ w) (hh : 1 ≤ h) :
     (s.resize w h).resize w h = s.resize w h :=
@@ -721,6 +769,7 @@ end TM.C18
 #print axioms TM.C18.resize_geo
 #print axioms TM.C18.resize_same_size
 #print axioms TM.C18.resize_idem
+#print axioms TM.C18.resize_grow_shrink
 #print axioms TM.C18.resize_init
 #print axioms TM.C18.term_resize_fields
 #print axioms TM.C18.term_resize_size
